@@ -34,8 +34,6 @@ class Task:
         def run():
             try:
                 self.result = fn(*a, **kw)
-            except greenlet.GreenletExit:
-                raise
             except BaseException as e:      # noqa
                 self.exc = e
             self.state = 'done'
@@ -60,6 +58,7 @@ class Sched:
         self.tasks = []
         self.choose = lambda n: 0          # schedule: which runnable task runs next
         self.steps = 0
+        self.dead = False
 
     def spawn(self, fn, *a, name='', **kw):
         t = Task(self, fn, a, kw, name)
@@ -68,10 +67,14 @@ class Sched:
         return t
 
     def block(self, what=''):
+        if self.dead:
+            raise SystemExit()
         t = self.cur
         t.waiting_on = what
         self.main.switch()
         t.waiting_on = None
+        if self.dead:
+            raise SystemExit()
 
     def wake(self, t):
         if t.state == 'blocked':
@@ -113,10 +116,13 @@ class Sched:
         self.now = end
 
     def kill_all(self):
+        # end every suspended task: SystemExit is what the code's own loops treat as "stop" (the monitor's bare
+        # `except:` would swallow GreenletExit and loop for ever)
+        self.dead = True
         for t in self.tasks:
-            if not t.g.dead and t.g:
+            if t.g and not t.g.dead:
                 try:
-                    t.g.throw(greenlet.GreenletExit)
+                    t.g.throw(SystemExit)
                 except BaseException:   # noqa
                     pass
         self.tasks = []
@@ -264,6 +270,7 @@ class DriverBase:
 
     def _init_common(self):
         self.events = []           # (sid, kind, payload) in order
+        self.trace = []            # every observable, in the order it happened: ('resp', rid) ('ws', cid, what) ('ev', sid, kind, payload) ('api', aid)
         self.rec = {}              # rid -> record
         self.conns = {}
         self.calls = {}
@@ -274,6 +281,7 @@ class DriverBase:
 
     def _on_connect(self, sid, environ):
         self.events.append((sid, 'connect', None))
+        self.trace.append(('ev', sid, 'connect', None))
         o = _outcome_of(environ)
         if o == 'raise':
             raise RuntimeError('connect handler raises')
@@ -286,6 +294,7 @@ class DriverBase:
 
     def _on_message_common(self, sid, data):
         self.events.append((sid, 'message', data))
+        self.trace.append(('ev', sid, 'message', data))
         if isinstance(data, str):
             if data.startswith('!raise'):
                 raise RuntimeError('message handler raises')
@@ -297,6 +306,7 @@ class DriverBase:
 
     def _on_disconnect_common(self, sid, reason):
         self.events.append((sid, 'disconnect', reason))
+        self.trace.append(('ev', sid, 'disconnect', reason))
         if self.raise_in_disconnect:
             raise RuntimeError('disconnect handler raises')
 
@@ -347,6 +357,7 @@ class ThreadedDriver(DriverBase):
                 self.conn = environ['verif.conn']
                 self.conn.accepted = True
                 self.conn.events.append('accept')
+                drv.trace.append(('ws', self.conn.cid, 'accept'))
                 ret = self.handler(self)
                 return ret
 
@@ -365,12 +376,14 @@ class ThreadedDriver(DriverBase):
                 if c.client_closed or c.server_closed:
                     raise OSError('websocket is closed')
                 c.sent.append(msg)
+                drv.trace.append(('ws', c.cid, ('send', msg)))
 
             def close(self):
                 c = self.conn
                 if not c.server_closed:
                     c.server_closed = True
                     c.events.append('close')
+                    drv.trace.append(('ws', c.cid, 'close'))
                     if c.waiter is not None:
                         S.wake(c.waiter)
 
@@ -441,13 +454,14 @@ class ThreadedDriver(DriverBase):
                     chunks = ret
                 rec['chunks'] = chunks
             except BaseException as e:   # noqa
-                if isinstance(e, greenlet.GreenletExit):
-                    raise
+                if self.S.dead:
+                    return
                 rec['raised'] = type(e).__name__
                 rec['raised_msg'] = str(e)[:200]
             rec['done'] = True
             rec['t_done'] = self.S.now
             self._finish(rec)
+            self.trace.append(('resp', rid))
         self.S.spawn(run, name='req%d' % rid)
         if settle:
             self.S.settle()
@@ -513,10 +527,11 @@ class ThreadedDriver(DriverBase):
             try:
                 rec['ret'] = getattr(self.srv, name)(*args)
             except BaseException as e:   # noqa
-                if isinstance(e, greenlet.GreenletExit):
-                    raise
+                if self.S.dead:
+                    return
                 rec['raised'] = type(e).__name__
             rec['done'] = True
+            self.trace.append(('api', aid))
         self.S.spawn(run, name='api%d' % aid)
         if settle:
             self.S.settle()
@@ -593,6 +608,7 @@ class AsyncDriver(DriverBase):
         import engineio, engineio.async_socket
         self._init_common()
         self.lp = VLoop()
+        self._keep = []
         asyncio.set_event_loop(self.lp)
         cfg.setdefault('async_mode', 'asgi')
         self.srv = engineio.AsyncServer(**cfg)
@@ -603,6 +619,7 @@ class AsyncDriver(DriverBase):
         if coroutine_handlers:
             async def on_connect(sid, environ):
                 self.events.append((sid, 'connect', None))
+                self.trace.append(('ev', sid, 'connect', None))
                 o = _outcome_of(environ)
                 if o == 'raise':
                     raise RuntimeError('connect handler raises')
@@ -645,7 +662,7 @@ class AsyncDriver(DriverBase):
                                     on_startup=on_startup, on_shutdown=on_shutdown)
 
     def _handler_send(self, sid, data):
-        self.lp.create_task(self.srv.send(sid, data))
+        self._keep.append(self.lp.create_task(self.srv.send(sid, data)))
 
     @property
     def now(self):
@@ -698,16 +715,20 @@ class AsyncDriver(DriverBase):
                         raise OSError('client gone')
                     conn.accepted = True
                     conn.events.append('accept')
+                    self.trace.append(('ws', conn.cid, 'accept'))
                 elif t == 'websocket.send':
                     if conn.client_closed or conn.server_closed:
                         raise OSError('websocket is closed')
                     conn.sent.append(ev.get('bytes') if ev.get('bytes') is not None else ev.get('text'))
                     conn.events.append('send')
+                    self.trace.append(('ws', conn.cid, ('send', conn.sent[-1])))
                 elif t == 'websocket.close':
                     if conn.server_closed:
                         raise OSError('already closed')
                     conn.server_closed = True
                     conn.events.append('close')
+                    if conn.accepted:                 # a close before accept is the ASGI spelling of an HTTP refusal
+                        self.trace.append(('ws', conn.cid, 'close'))
                     conn.q.put_nowait({'type': 'websocket.disconnect', 'code': 1000})   # what an ASGI server reports next
                 else:
                     conn.events.append('illegal:' + str(t))
@@ -723,7 +744,9 @@ class AsyncDriver(DriverBase):
             rec['done'] = True
             rec['t_done'] = self.lp.vnow
             self._finish(rec, ws)
+            self.trace.append(('resp', rid))
         rec['task'] = self.lp.create_task(run())
+        self._keep.append(rec['task'])       # the loop holds tasks weakly: a pending one must not be collected
         if settle:
             self.lp.settle()
         return rid
@@ -819,7 +842,8 @@ class AsyncDriver(DriverBase):
             except BaseException as e:   # noqa
                 rec['raised'] = type(e).__name__
             rec['done'] = True
-        self.lp.create_task(run())
+            self.trace.append(('api', aid))
+        self._keep.append(self.lp.create_task(run()))
         if settle:
             self.lp.settle()
         return aid
